@@ -97,10 +97,11 @@ def main():
     meta["caught_by"] = sorted(p for p, v in verdicts.items() if v["verdict"] == "VIOLATION")
     dst = os.path.join(VERIF, "seeded", a.id)
     os.makedirs(dst, exist_ok=True)
-    shutil.copy(patch, os.path.join(dst, "patch.diff"))
-    if os.path.isdir(os.path.join(a.seed, "demo")):
+    if os.path.abspath(patch) != os.path.abspath(os.path.join(dst, "patch.diff")):
+        shutil.copy(patch, os.path.join(dst, "patch.diff"))
+    if os.path.isdir(os.path.join(a.seed, "demo")) and os.path.abspath(a.seed) != os.path.abspath(dst):
         shutil.copytree(os.path.join(a.seed, "demo"), os.path.join(dst, "demo"), dirs_exist_ok=True)
-    if os.path.exists(os.path.join(a.seed, "README.md")):
+    if os.path.exists(os.path.join(a.seed, "README.md")) and os.path.abspath(a.seed) != os.path.abspath(dst):
         shutil.copy(os.path.join(a.seed, "README.md"), os.path.join(dst, "SEEDER_README.md"))
     old = {}
     mp = os.path.join(dst, "meta.json")
